@@ -108,6 +108,14 @@ CLAIMED.update({
               "handles are dataset-scoped (for_dataset(uri)), and session-cache keys must carry a content/incarnation discriminator "
               "rather than only a version or fragment number.",
               "Result equality under eviction is not decided.", "DESIGN.md 3 C38"),
+    "C42": _c("other", "descriptor-shape inventory + over-approximating origin analysis of persisted references",
+              "Only the clause 'every persisted reference is root-relative': descriptors that point at other objects carry no "
+              "location-typed or location-named field beyond the reviewed relative ones; the data-file path stored by every writer "
+              "originates from the generated file name and, following every call's arguments (an over-approximation of the function's "
+              "data flow), does not depend on the base directory; the transaction reference stored in a manifest is the bare name "
+              "returned by write_transaction_file; deletion files are located from the reader's base at read time. A necessary "
+              "condition of the property; that a copy reads identical data is not decided.",
+              "Path::child semantics are trusted; tables with extra base paths are outside the property.", "DESIGN.md 3 C42"),
     "C32": _c("other", "field-coverage (COVER) analysis of every protobuf conversion",
               "For every domain<->protobuf conversion discovered in the format/transaction/MemWAL/frag-reuse/row-id modules: encode reads "
               "every domain field (per Operation variant inside its arm), every stored field is derived from the source (data flow, "
@@ -192,7 +200,6 @@ NOT_APPLICABLE = {
     "C35": "floating-point kernel results",
     "C40": "array values",
     "C41": "stream contents and schedules",
-    "C42": "a negative flow property (no persisted path depends on the root); the origin analysis here is sound only for positive must-come-from claims",
     "C43": "set algebra over run-time schemas",
 }
 
